@@ -2,7 +2,6 @@ use super::*;
 use crate::{
     base::{BaseSlot, EntryContext, RuleCheckSlot, StatNode, TokenResult},
     logging, stat, utils,
-    utils::AsAny,
 };
 use lazy_static::lazy_static;
 use std::sync::Arc;
